@@ -16,6 +16,7 @@ def run(tier, seed):
     nsh = core.NCPU if tier == "thorough" else min(8, core.NCPU)
     cases, sums, notes = core.run_sharded(exe, "c01", seed, tier, nsh, timeout=1500)
     r.add_cases(cases, "native")
+    core.also_librel(r, tier, False, lambda exe2: core.run_sharded(exe2, "c01", seed, tier, nsh, timeout=1500))
     r.notes += notes
     r.observe("native", core.sum_dicts(sums))
     # simulation part: the unmodified patch_amd64.rs against a simulated memory, incl. trampolines beyond
@@ -39,7 +40,7 @@ def replay(path):
         p = subprocess.run([exe, 'c01sim', '--seed', str(rp['seed']), '--tier', rp['tier'], '--only', str(rp['case_index'])], stdout=subprocess.PIPE, text=True)
         print(p.stdout[-2500:])
         return 1 if ('"verdict":"violated"' in p.stdout or p.returncode != 0) else 0
-    exe = core.build_native()
+    exe = core.build_native(libopt="librel" in str(rp.get("engine", "")))
     import subprocess
     cmd = [exe, "c01", "--seed", str(rp["seed"]), "--tier", rp["tier"], "--only", str(rp["case_index"])]
     p = subprocess.run(cmd)
